@@ -102,20 +102,25 @@ def runRfault (line : String) : String :=
 def runC08o (line : String) : String :=
   match Sexp.parse line with
   | some (.list [.atom "c08o", t, p, .atom l, .atom tr, .atom m]) =>
-    match t.nat?, p.nat? with
+    -- T = max / maxsecs: `Duration::MAX` / `Duration::from_secs(u64::MAX)` in ms; held requests are answered P % of
+    -- one second after the start; nothing may stall
+    let huge := t == .atom "max" || t == .atom "maxsecs"
+    let tv : Option Nat := if huge then some (2 ^ 64 * 1000) else t.nat?
+    match tv, p.nat? with
     | some t, some p =>
+      let base := if huge then 1000 else t
       let kind? : String → Option (Option (Option Nat)) := fun k =>
         if k == "absent" then some none
         else if k == "ack" then some (some (some 0))
-        else if k == "hold" then some (some (some (t * p / 100)))
-        else if k == "stall" then some (some none)
+        else if k == "hold" then some (some (some (base * p / 100)))
+        else if k == "stall" then (if huge then none else some (some none))
         else none
       match kind? l, kind? tr, kind? m with
       | some l, some tr, some m =>
-        if t < 200 || t > 5000 || p > 90 then "bad-op" else
+        if base < 200 || base > 5000 || p > 90 then "bad-op" else
         let cs := [l, tr, m].filterMap id
         let r := OtlpE2E.flushSeq t cs 0
-        s!"flush={r.1} over={decide (r.2 > t)}\tsignals={cs.length},at={min (r.2 * 4 / t) 4}"
+        s!"flush={r.1} over={decide (r.2 > t)}\tsignals={cs.length},at={min (r.2 * 4 / t) 4}" ++ (if huge then ",huge" else "")
       | _, _, _ => "bad-op"
     | _, _ => "bad-op"
   | _ => "bad-op"
